@@ -21,6 +21,9 @@ GROUPS = {
     "TY-GUARD-NOT-SEND": (["C16"], "Guard is neither Send nor Sync", ["GuardNotSend", "GuardNotSync", "GuardRefNotSend"]),
     "TY-WEAK-NO-DEREF": (["C05", "C03"], "Weak / WeakSnapshot offer no dereference",
                          ["WeakNoDeref", "WeakSnapshotNoDeref", "WeakNoUnsafeDeref"]),
+    "TY-REF-BORROW": (["C01"], "a reference obtained through an Rc (as_ref, deref, as_mut) is a borrow of that Rc: it cannot be "
+                      "used after the Rc is dropped, and a mutable one needs the Rc exclusively",
+                      ["RcRefBorrow", "RcDerefBorrow", "RcAsMutExclusive"]),
     "TY-TAKE-MUT": (["C08"], "AtomicRc::take needs exclusive access", ["TakeMut"]),
     "TY-PRIVATE": (["C01", "C08", "C09", "C13"], "links, from_raw/into_raw and unprotected() are not reachable from outside",
                    ["LinkPrivate", "WeakLinkPrivate", "IntoRawPrivate", "UnprotectedPrivate"]),
